@@ -8,6 +8,7 @@ CONSTANTS
   MaxCrash = 1
   MaxCreate = 2
   MaxHist = 0
+  MaxHistUnlisted = 0
   RECORD_FIRST = FALSE
   OVERWRITE = FALSE
   READ_LIVE = FALSE
